@@ -188,8 +188,22 @@ class C19(Check):
                         setattr(dev, f"v{k}", getattr(t, f"p{k}"))
             fdev = devclass(True)()
             link(fdev)
+            def other_group():
+                """another sync group of this process over the same terminals in the OPPOSITE order (another frame layout),
+                allocated later: it must not change where the groups under test find their variables"""
+                ns = {f"t{i}": TerminalVar() for i in range(len(rig.terms))}
+                ns["update"] = lambda self: None
+                X = type("Other", (Device,), ns)
+                x = X()
+                for i, t in reversed(list(enumerate(rig.terms))):
+                    setattr(x, f"t{i}", t.in_word if hasattr(t, "in_word") else None)
+                og = SyncGroup(rig.ec, [x])
+                og.allocate()
+                return og
             fsg = FastSyncGroup(rig.ec, [fdev])
             fsg.allocate()
+            if len(rig.terms) > 1:
+                res["other1"] = other_group()
             fsg.assemble()
             fds = {fd: i for i, fd in enumerate(kernel.maps)}
             instrs = []
@@ -217,6 +231,8 @@ class C19(Check):
             link(sdev)
             ssg = SyncGroup(rig.ec, [sdev])
             ssg.allocate()
+            if len(rig.terms) > 1:
+                res["other2"] = other_group()
             res["slow_same_layout"] = {k: ssg.pdo_assign[rig.terms[v["term"]]].get(SM[v["sm"]]) for k, v in enumerate(case["vars"])} == res["starts"]
             ssg.current_data = bytearray(frame)
             for j, s in enumerate(case["stmts"]):
